@@ -319,7 +319,10 @@ def main(argv=None):
     # statements were sorted again without them (remove_unused must not move a slot)
     import textmodel
     for text in ("parameters(a=1.0, b=2.0, c=3.0)\nstates(u=1.0, v=2.0, w=3.0)\nprobe = b\ndu_dt = w\ndv_dt = u\ndw_dt = b\n",
-                 "states(x=1, y=2, z=3)\nparameters(p=1, q=2)\nmon1 = z*q\nmon2 = mon1 + y\ndx_dt = y\ndy_dt = z - p\ndz_dt = q - x\n"):
+                 "states(x=1, y=2, z=3)\nparameters(p=1, q=2)\nmon1 = z*q\nmon2 = mon1 + y\ndx_dt = y\ndy_dt = z - p\ndz_dt = q - x\n",
+                 # a quantity whose name is the jax generator's name for a result slot beyond the states (monitor_values has more slots
+                 # than rhs): the jax module is either refused or puts every quantity in the slot monitor_index reports
+                 "states(x=1, y=2)\nparameters(a=3, b=0.5)\n_values_2 = a*x\nz = _values_2 + b*y\nw = z*_values_2\nv = w + _values_2\ndx_dt = v - x\ndy_dt = _values_2 - y\n"):
         c_ = pipeline.Case(drv, text)
         m_ = textmodel.model_from_items(c_.captured)
         core.guarded(rep, text, check_model, rep, drv, gen, rng, m_, text, c_, with_jax=True, with_c=True)
